@@ -223,4 +223,24 @@ theorem response_fields_agree (ext : List Nat → Bool) (st : Int) (hs : List (L
   simp only [expectedResp, Resp.mk.injEq, true_and]
   exact ⟨by rw [v1, key.1], by rw [v2, key.2], by rw [v3, key.2]⟩
 
+/-! ### trailers -/
+
+/-- what the receiving side's `decodeTrailers` must yield for the trailer map `t` the writer was given:
+    nothing if `writeTrailers` wrote no section, else the emitted fields under canonicalised keys -/
+def expectedTrailers (t : List (List Nat × List (List Nat))) : Option (Except Err Headers) :=
+  (writeTrailers t).map fun tf => .ok (tf.map fun f => (canonKey f.1, f.2))
+
+theorem recvTrailers_agree (q : Qpack) (hq : q.RoundTrip) (ext : List Nat → Bool) (mh : Nat)
+    (t : List (List Nat × List (List Nat))) (hvt : ValidTrailers t)
+    (hsz : ∀ tf, writeTrailers t = some tf → sectionSize tf ≤ mh)
+    (s : Uquic.Model.H3.MsgStream) (hs : s.trailer = (writeTrailers t).map q.enc) :
+    recvTrailers q ext mh s = expectedTrailers t := by
+  unfold recvTrailers expectedTrailers
+  rw [hs]
+  cases hw : writeTrailers t with
+  | none => rfl
+  | some tf =>
+    obtain ⟨hp, _⟩ := Uquic.Props.C19.trailer_writer_parser_agree ext t tf hvt hw mh (hsz tf hw)
+    simp only [Option.map_some, hq tf, hp]
+
 end Uquic.Proofs.H3Msg
